@@ -78,5 +78,5 @@ GrammarOf(a, kind) ==
    startprod |-> NUser(a), startrule |-> 0, eof |-> Len(a.tokens),
    expect |-> IF a.expect = NoneG THEN <<>> ELSE a.expect[1], expectrr |-> IF a.expectrr = NoneG THEN <<>> ELSE a.expectrr[1],
    implicit_rule |-> IF Implicit(a, kind) THEN 1 ELSE -1,
-   programs |-> a.programs]
+   programs |-> a.programs, parse_param |-> a.parse_param, parse_generics |-> a.parse_generics]
 =============================================================================
